@@ -33,7 +33,7 @@ func init() {
 		}
 		var o out
 		sp.Sequences(func(n uint64, steps []lruseq.Step) {
-			tr := lruseq.Run(realLRU{storage.VerifNewLRU(sp.Cap)}, steps)
+			tr := lruseq.RunEvery(realLRU{storage.VerifNewLRU(sp.Cap)}, steps, sp.Every)
 			if sp.Full {
 				o.Trace = tr
 			} else {
